@@ -24,7 +24,8 @@ func init() { keep = checker.Keep }
 func TestMain(m *testing.M) { vk.Main(m, "C11") }
 
 type Case struct {
-	Op    string   `json:"op"` // fromstr32 (also checks PathOf) | pathsof
+	Op    string   `json:"op"`            // fromstr32 (also checks PathOf) | pathsof | maxstr
+	Cut   int      `json:"cut,omitempty"` // maxstr: the string is the maximum string (2^28 bytes, gen.MaxString) without its last Cut bytes
 	S     vk.Hex   `json:"s,omitempty"`
 	From  int32    `json:"from"`
 	W     int      `json:"w"`
@@ -116,7 +117,61 @@ func wantPathsOf(keys []string, from int32, h int, dedup bool) []uint64 {
 	return out
 }
 
+// checkMaxStr: FromStr32 / PathOf / PathsOf on a string of 2^28 bytes (8*len = 2^31 does not fit an int32) or a few
+// bytes less; the oracle works from the description of that string.
+func checkMaxStr(from int32, w, cut int) *vk.Failure {
+	if from < 0 || w < 0 || w > 32 || cut < 0 || cut > 64 || int64(from)+int64(w) > math.MaxInt32 {
+		return nil
+	}
+	s := gen.MaxString(cut)
+	avail := int64(8*len(s)) - int64(from)
+	k := min(max(avail, 0), int64(w))
+	v, prefix := uint64(0), uint64(0)
+	txt := make([]byte, k)
+	for j := int64(0); j < k; j++ {
+		b := gen.MaxStrBit(int64(from) + j)
+		v |= b << uint(int64(w)-1-j)
+		prefix = prefix<<1 | b
+		txt[j] = byte('0' + b)
+	}
+	what := fmt.Sprintf("string of 2^28-%d bytes, from=%d, w=%d", cut, from, w)
+	var gk int32
+	var gv, gp uint64
+	var gtxt string
+	var gps []uint64
+	if f := vk.Try("FromStr32/PathOf/PathsOf on a "+what, func() {
+		gk, gv = bitmap.FromStr32(s, from, from+int32(w))
+		gp = bmtree.PathOf(s, from, int32(w))
+		gtxt = bmtree.PathStr(gp)
+		gps = bmtree.PathsOf([]string{s, s, "A"}, from, int32(w), true)
+	}); f != nil {
+		return f
+	}
+	if int64(gk) != k || gv != v {
+		return vk.Failf("fromstr32", "FromStr32(%s) = (%d, %#x), want (%d, %#x)", what, gk, gv, k, v)
+	}
+	wp := model.PathWord(prefix, int(k), w)
+	if gp != wp || gtxt != string(txt) {
+		return vk.Failf("pathof", "PathOf(%s) = %#x %q, want %#x %q", what, gp, gtxt, wp, txt)
+	}
+	wa, _ := wantPath("A", from, w)
+	wantPs := []uint64{wp}
+	if wa != wp {
+		wantPs = append(wantPs, wa)
+	}
+	if fmt.Sprint(gps) != fmt.Sprint(wantPs) {
+		return vk.Failf("pathsof", "PathsOf([s, s, \"A\"], dedup) with s a %s = %#x, want %#x", what, gps, wantPs)
+	}
+	if j, bad := gen.MaxStringDamage(); bad {
+		return vk.Failf("mutates", "byte %d of the 2^28-byte string argument was modified", j)
+	}
+	return nil
+}
+
 func check(c Case) *vk.Failure {
+	if c.Op == "maxstr" {
+		return checkMaxStr(c.From, c.W, c.Cut)
+	}
 	if c.Op == "pathsof" {
 		keys := vk.Strings(c.Keys)
 		want := wantPathsOf(keys, c.From, c.W, c.Dedup)
@@ -181,6 +236,9 @@ func nontrivialOne(s string, from int32, w int) bool {
 }
 
 func classify(c Case) (bool, []string) {
+	if c.Op == "maxstr" {
+		return true, []string{"op:maxstr", "maximum-string(2^28 bytes)"}
+	}
 	labels := []string{"op:" + c.Op, "class:" + c.Class}
 	if c.Op == "pathsof" {
 		keys := vk.Strings(c.Keys)
@@ -364,6 +422,17 @@ func TestGrid(t *testing.T) {
 			for _, dedup := range []bool{true, false} {
 				checker.Run(t, Case{Op: "pathsof", Keys: keys, From: 0, W: 24, Dedup: dedup, Class: "grid-long-list"})
 				checker.Run(t, Case{Op: "pathsof", Keys: keys, From: 3, W: 32, Dedup: dedup, Class: "grid-long-list"})
+			}
+		}
+	}
+	// the maximum string: 2^28 bytes (8*len = 2^31 fits no int32), and a few bytes less
+	for _, cut := range []int{0, 1, 4, 5} {
+		L8 := int64(8 * (gen.MaxStrLen - cut))
+		for _, w := range []int{0, 1, 7, 8, 9, 31, 32} {
+			for _, from := range []int64{0, 1, 7, 8, 9, 63, 64, 8 * (gen.MaxStrLen / 2), 8*(gen.MaxStrLen/2) - 3, L8 - 104, L8 - 72, L8 - 71, L8 - 40, L8 - 39, L8 - 33, L8 - 32, L8 - 31, L8 - 9, L8 - 8, L8 - 7, L8 - 1, L8, L8 + 1, L8 + 7} {
+				if from >= 0 && from+int64(w) <= math.MaxInt32 {
+					checker.Run(t, Case{Op: "maxstr", From: int32(from), W: w, Cut: cut, Class: "grid-maximum-string"})
+				}
 			}
 		}
 	}
